@@ -251,7 +251,7 @@ theorem repLoop_relE (h : RunRelE g uni b Rl) {α} {u : Nat → Inp → M → R 
     simp only [repLoop, repLoopEvs]
     by_cases hmax : max = some idx
     · simp only [hmax, if_true]
-      split <;> exact h.refl _ _
+      rcases repDone_cases min (some idx) i m acc with hd | hd <;> rw [hd] <;> exact h.refl _ _
     · simp only [hmax, if_false]
       have h1 := (hu idx i m hb).restore (saved := m.stk)
       cases hr : restoreOnNone m.stk (u idx i m) with
@@ -259,7 +259,9 @@ theorem repLoop_relE (h : RunRelE g uni b Rl) {α} {u : Nat → Inp → M → R 
       | fail m' =>
         rw [hr] at h1
         simp only []
-        split <;> exact RunRelE.nil_right h1
+        split
+        · exact RunRelE.nil_right h1
+        · rcases repDone_cases min max i m' acc with hd | hd <;> rw [hd] <;> exact RunRelE.nil_right h1
       | ok i' m' a =>
         rw [hr] at h1
         have hi := hau idx _ _ _ _ _ (restoreOnNone_ok hr)
@@ -480,7 +482,7 @@ theorem parse_relE (h : RunRelE g uni b Rl) :
             rw [hr] at h1
             exact h.ruleOk hb hd hne (by rw [hr]; rfl) ⟨_, by simp only [parse, hd, he, hr]; rfl⟩ h1
     | array k x =>
-      simp only [parse, evs]
+      simp only [parse, arrayTryInto_arrayLoop, evs]
       have h1 := arrayLoop_relE h (ih inh x) (iha inh x) k [] i m hb
       cases hr : arrayLoop (parse g uni n inh x) k i m [] with
       | oof => trivial
